@@ -168,6 +168,10 @@ func srvUDP(t *testing.T, con bool, v int64, code codes.Code, extra ...message.O
 	return line
 }
 
+// dupRequest (`srvd` lines): the same datagram is handed to the connection a second time (the peer's retransmission after a
+// lost acknowledgement); what goes out for the copy is rendered like the first answer and compared with it
+var dupRequest bool
+
 func srvUDPOnce(t *testing.T, con bool, v int64, code codes.Code, coincidence *bool, extra ...message.OptionID) (line string) {
 	synctest.Test(t, func(t *testing.T) {
 		set := "nocall"
@@ -192,25 +196,43 @@ func srvUDPOnce(t *testing.T, con bool, v int64, code codes.Code, coincidence *b
 		}
 		synctest.Wait()
 		var b bytes.Buffer
+		render := func(b *bytes.Buffer, sent []mem.Sent) {
+			for _, d := range sent {
+				m := pool.NewMessage(context.Background())
+				if _, err := m.UnmarshalWithDecoder(udpcoder.DefaultCoder, d.Data); err != nil {
+					fmt.Fprintf(b, " undecodable")
+					continue
+				}
+				mid := "own"
+				if m.MessageID() == reqMID {
+					mid = "req"
+					if m.Type() != message.Acknowledgement && m.Type() != message.Reset {
+						// a message with its own ID that happens to equal ours: repeat the case with another request ID
+						*coincidence = true
+					}
+				}
+				fmt.Fprintf(b, " %s %d %s %s", typeName(m.Type()), m.Code(), mid, lp.Hex(m.Token()))
+			}
+		}
 		sent := s.TakeSent()
 		fmt.Fprintf(&b, "set %s sent %d", set, len(sent))
-		for _, d := range sent {
-			m := pool.NewMessage(context.Background())
-			if _, err := m.UnmarshalWithDecoder(udpcoder.DefaultCoder, d.Data); err != nil {
-				fmt.Fprintf(&b, " undecodable")
-				continue
-			}
-			mid := "own"
-			if m.MessageID() == reqMID {
-				mid = "req"
-				if m.Type() != message.Acknowledgement && m.Type() != message.Reset {
-					// a message with its own ID that happens to equal ours: repeat the case with another request ID
-					*coincidence = true
-				}
-			}
-			fmt.Fprintf(&b, " %s %d %s %s", typeName(m.Type()), m.Code(), mid, lp.Hex(m.Token()))
-		}
+		render(&b, sent)
 		line = b.String()
+		if dupRequest {
+			var first, second bytes.Buffer
+			render(&first, sent)
+			if err := cc.Process(nil, buildReq(true, con, v, extra...)); err != nil {
+				second.WriteString(" process-error")
+			}
+			synctest.Wait()
+			again := s.TakeSent()
+			render(&second, again)
+			if first.String() == second.String() {
+				line += " dup same"
+			} else {
+				line += fmt.Sprintf(" dup differs sent %d%s", len(again), second.String())
+			}
+		}
 		_ = cc.Close()
 		synctest.Wait()
 	})
@@ -534,7 +556,9 @@ func TestC20(t *testing.T) {
 				fmt.Fprintln(w, srvTCP(t, v, callCodes[0]))
 			}
 			callCodes = nil
-		case (len(f) == 5 || len(f) == 6) && f[0] == "srv":
+		case (len(f) == 5 || len(f) == 6) && (f[0] == "srv" || f[0] == "srvd" && f[1] == "udp" && f[2] == "con"):
+			dupRequest = f[0] == "srvd"
+			defer func() { dupRequest = false }()
 			var extra []message.OptionID
 			handlerMutates = nil
 			badLength = nil
